@@ -7,7 +7,7 @@ import subprocess
 import sys
 import time
 
-ROOT = '/verif'
+ROOT = os.environ.get('VERIF_ROOT', '/verif')
 COQ = ROOT + '/coq'
 BUILD = ROOT + '/build'
 EXTRACT = BUILD + '/extract'
